@@ -273,6 +273,45 @@ def o4_o6_builder(ck):
     if sep is None or flt is None:
         ck.fail("O6.corpus_games", "generate_book_data", gb.where(), "cannot recover the builder's splitting idiom (split separator / starts_with filter)")
         return
+    # O6.pipeline: between the split into chunks and the per-game fold only stages the corpus model understands may sit: trimming maps,
+    # the game filter (starts_with), an emptiness filter, and adapters that neither drop nor regroup items.  Any other stage (filter_map,
+    # chunks, skip, take, step_by, zip, a filter on something else) can silently lose games.
+    NEUTRAL = ("inspect", "peekable", "by_ref", "into_iter", "iter", "copied", "cloned", "fuse", "collect", "deref", "as_slice", "rev")
+    for bb, t in live_calls(gb):
+        if not callee_name(t).endswith("try_fold"):
+            continue
+        x = gtb.operand(t["args"][0])
+        stages = []
+        reached = False
+        while x[0] == "call":
+            last = x[1].split("::")[-1]
+            if x[1].endswith("<impl str>::split"):
+                reached = True
+                break
+            stages.append((last, x))
+            x = x[2][0] if x[2] else ("none",)
+        ck.req(reached, "O6.pipeline", "games stream", gb.where(t["line"]), "the per-game fold does not consume the chunks of split(%r) directly: %s" % (sep, [s_[0] for s_ in stages][:8]))
+        for last, st in stages:
+            if last in NEUTRAL:
+                continue
+            cl = [a for a in st[2][1:] if a[0] == "agg" and str(a[1]).startswith("closure:")]
+            body = prog.body(cl[0][1][len("closure:"):]) if cl else None
+            okst = False
+            if body is not None and last in ("map", "filter"):
+                from terms import return_term as _rt
+                rt = _rt(prog, body)
+                if rt is not None:
+                    inner = rt
+                    while inner[0] == "un" and inner[1] == "Not":
+                        inner = inner[2]
+                    nm = inner[1].split("::")[-1] if inner[0] == "call" else ""
+                    if last == "map" and nm in ("trim", "trim_start", "trim_end"):
+                        okst = True
+                    if last == "filter" and nm in ("starts_with", "is_empty"):
+                        okst = True
+            ck.req(okst, "O6.pipeline", "stage %s" % last, gb.where(t["line"]),
+                   "between splitting a book file into chunks and folding the games there is a stage `%s` that is not a trim, the game filter or an emptiness filter: "
+                   "games can be dropped or regrouped before they are recorded" % last)
     import os as _os
     book_dir = None
     for cand in ("book",):
